@@ -191,6 +191,9 @@ func anaScope() map[string]analyzer.Variable {
 	for _, n := range hostNames {
 		m[n] = all[n]
 	}
+	for n, v := range extraAnaScope {
+		m[n] = v
+	}
 	return m
 }
 func vmScope() map[string]value.Value {
@@ -199,6 +202,9 @@ func vmScope() map[string]value.Value {
 	for _, n := range hostNames {
 		m[n] = all[n]
 	}
+	for n, v := range extraVmScope {
+		m[n] = v
+	}
 	return m
 }
 func treeScope() map[string]ivalue.Value {
@@ -206,6 +212,9 @@ func treeScope() map[string]ivalue.Value {
 	m := map[string]ivalue.Value{}
 	for _, n := range hostNames {
 		m[n] = all[n]
+	}
+	for n, v := range extraTreeScope {
+		m[n] = v
 	}
 	return m
 }
